@@ -8,7 +8,7 @@ import z3
 
 from . import drv, vals, solve, validate, gen, mpc_common as mc
 from .cctypes import T
-from .common import Check, pool_map
+from .common import Check, pool_map, safe_analyze
 from .interp import Interp, Unsupported, flat_elems, shape_of, shape_of_type
 from .validate import op_name, RANDOMISING
 
@@ -98,6 +98,7 @@ def interface(ctx):
     return [(n["op"]["Input"], n.get("name")) for n in g["nodes"] if op_name(n) == "Input"]
 
 
+@safe_analyze(lambda a: dict(id=a[0]["id"], status=None, queries=[], note="", cex=None, n_nodes=(0, 0), validated=0, mism=[], findings=[], mapped=0, identical=0))
 def analyze(args):
     case, res, timeout_s = args
     out = dict(id=case["id"], status=None, queries=[], note="", cex=None, n_nodes=(0, 0), validated=0, mism=[], findings=[], mapped=0, identical=0)
@@ -185,7 +186,12 @@ def analyze(args):
             ps = pre.get(i, [])
             if len(ps) >= 1 and op_name(gO["nodes"][i]) in ("Random", "RandomPermutation"):
                 it.rand_symbols[(O["main"], i)] = gv[ps[0]]
-        ov = it.run_graph(O["main"], xs)
+        try:
+            ov = it.run_graph(O["main"], xs)
+        except (ValueError, IndexError, AssertionError, KeyError, TypeError) as e:
+            out["findings"].append(dict(kind="not_evaluable", text="the optimised graph cannot be evaluated under the documented semantics (operand shapes/types no longer fit): %r" % (e,)))
+            out["status"] = "finding"
+            return out
         for nid, n in enumerate(gO["nodes"]):
             if shape_of(ov[nid]) != shape_of_type(T.from_json(n["type"])):
                 out["findings"].append(dict(kind="type", text="optimised node %d %s: recorded type %s but the operation produces %s" % (nid, op_name(n), n["type"], shape_of(ov[nid]))))
